@@ -27,6 +27,13 @@ def definer(c, N, V):
         "setx": f"(setx {N} {V})",
         "global-setv": f"(defn hyv-g{V} [] (global {N}) (setv {N} {V}))\n(hyv-g{V})",
         "let-free-setv": f"(let [hyv-q 0] (setv {N} {V}))",
+        "setv-try": f"(setv {N} (try {V} (except [ValueError] 0)))",
+        "setv-if-stmt": f"(setv {N} (if True (do (setv hyv-q 0) {V}) 0))",
+        "setx-try": f"(setv hyv-q (setx {N} (try {V} (except [ValueError] 0))))",
+        "aug-assign": f"(setv {N} 0)\n(+= {N} {V})",
+        "match-capture": f"(match {V} {N} None)",
+        "del-then-setv": f"(setv {N} 0)\n(del {N})\n(setv {N} {V})",
+        "nonlocal-setv": f"(defn hyv-o{V} [] (setv {N} 0) (defn hyv-i [] (nonlocal {N}) (setv {N} {V})) (hyv-i) {N})\n(setv {N} (hyv-o{V}))",
         "defmacro": f"(defmacro {N} [] {V})",
         "param": f"(defn hyv-f [{N}] {N})",
         "kwarg": f"(setv hyv-d (hyv-k :{N} {V}))",
@@ -60,7 +67,8 @@ def user(c, N):
     }[c]
 
 
-INT_VALUED = {"setv", "import-as", "for", "with-as", "setx", "global-setv", "let-free-setv"}
+INT_VALUED = {"setv", "import-as", "for", "with-as", "setx", "global-setv", "let-free-setv", "setv-try", "setv-if-stmt",
+              "setx-try", "aug-assign", "match-capture", "del-then-setv", "nonlocal-setv"}
 
 
 def program(rec):
@@ -156,7 +164,7 @@ def main(run):
                 run.work, workers=16, label="names", timeout=3000)
     if r.violated:
         raise MachineryError(f"HyNames: {r.violated} violated on the specification")
-    run.add_tlc(r, "HyNames: 19 defining constructs x 10 names, optionally a second definition, x 16 using constructs x 10 names; "
+    run.add_tlc(r, "HyNames: 26 defining constructs x 10 names, optionally a second definition, x 16 using constructs x 10 names; "
                    "sameness of names is equality of HyMangle!Mangle")
     rows = r.ex("CASE")
     run.log(f"TLC: {len(rows)} programs")
@@ -202,7 +210,7 @@ def main(run):
         raise MachineryError(f"vacuous: {stats}")
     run.sample({"program": program(rows[len(rows) // 2]), "spec": rows[len(rows) // 2]})
     return run.finish("model_checking",
-                      "19 defining constructs (setv, defn, defclass, import :as, for, with, setx, global, let-free setv, defmacro, "
+                      "26 defining constructs (setv, also with a value left in a compiler temporary (try, if with statements), +=, match capture, nonlocal, defn, defclass, import :as, for, with, setx, global, let-free setv, defmacro, "
                       "parameter, keyword argument, mangled dict key, dotted / (. ) / class-body / method / setattr attributes) x 16 "
                       "using constructs (read, argument, f-string field, dotted head, global, del, macro call, keyword call, (:k d), "
                       "mangled get, dotted / (. ) / method call / dotted call / getattr) of the same namespace x 10 names each "
